@@ -1121,12 +1121,20 @@ def fn_roundtrip(case, ctx):
             if fmt == "stl" and soup is None and "Only triangular and quad" in str(e):
                 ctx.label("stl:polygon-refused")
                 return
+            if ignore is not None and ig_form in ("list", "tuple"):
+                ctx.label("ignore-arg:non-set-rejected")
+                return
             ctx.fail("save:raises", f"ValueError: {e}", exc="ValueError")
             return
         except Exception as e:
             from vlib.runner import innermost_mouette_frame, Violation, Inconclusive, HarnessError
             if isinstance(e, (Violation, HarnessError)):
                 raise
+            if isinstance(e, TypeError) and ignore is not None and ig_form in ("list", "tuple"):
+                # the signature says `ignore_elements: set`; a list / tuple works on the pinned library (membership is all save needs),
+                # a library that rejects it is within its rights ("rejected or right", DESIGN 2.6)
+                ctx.label("ignore-arg:non-set-rejected")
+                return
             where = innermost_mouette_frame(e.__traceback__)
             ctx.fail("save:raises", f"{type(e).__name__}: {e} (at {where})", exc=type(e).__name__, where=where)
             return
